@@ -92,6 +92,7 @@ fn main() {
                 println!("REPLAY harness={} diverged: {} (used {}/{} values, exhausted={})", harness, msg, next, n, exhausted);
                 std::process::exit(3);
             }
+            mq2_harness::ledger::dump();
             println!("REPLAY harness={} FAILED: {} (used {}/{} values)", harness, msg, next, n);
             std::process::exit(1);
         }
